@@ -493,7 +493,7 @@ class Interp(object):
                 except KeyError:
                     self.bind(a.asname or a.name, Opaque('%s.%s' % (modname, a.name)), env)
                     continue
-                if modname in ('paths2svg', 'document', 'svg_io_sax') and env.module.name not in ('document', 'svg_io_sax'):
+                if modname in ('paths2svg', 'document', 'svg_io_sax') and env.module.name not in ('document', 'svg_io_sax', 'nothing'):
                     # I/O modules: not loaded on behalf of geometry modules
                     self.bind(a.asname or a.name, Opaque('%s.%s' % (modname, a.name)), env)
                     continue
